@@ -3,7 +3,9 @@
 Recipe = vk.gen.problem recipe restricted to the Ks0 compiler's kind (Boolean fluents only, constant Boolean effect
 values, conditional / forall effects, negative / disjunctive / quantified / equality conditions) with at most one effect
 per ground fluent per ground action, plus either an explicit list of possible initial states or contingent constraints
-(oneof / or / unknown over ground fluents).  A directed family of classic conformant shapes is mixed in.
+(oneof / or / unknown over ground fluents; the literals of oneof / or groups may be negative: a oneof group means "exactly
+one of the listed literals holds").  Two directed families are mixed in: classic corridor shapes, and chains of conditional
+effects of depth 2-3 with mixed polarities whose uncertainty is about one early-chain atom.
 """
 from itertools import product
 
@@ -151,12 +153,112 @@ def _directed(rng):
     return rec, ["directed-corridor"]
 
 
-def gen_conformant(rng, directed=0.25, contingent=0.38):
+def _prop_holds(e, st):
+    """Truth of a propositional recipe literal / conjunction over 0-ary fluents (generator-side only)."""
+    if e is None:
+        return True
+    if e[0] == "f":
+        return st[e[1]]
+    if e[0] == "not":
+        return not _prop_holds(e[1], st)
+    if e[0] == "and":
+        return all(_prop_holds(a, st) for a in e[1:])
+    raise ValueError(e)
+
+
+def _prop_run(rec, st, skip=()):
+    """Apply the recipe's actions once each, in listing order, where applicable (simultaneous conditional effects)."""
+    st = dict(st)
+    for a in rec["actions"]:
+        if a["name"] in skip or not all(_prop_holds(p, st) for p in a["pre"]):
+            continue
+        nxt = dict(st)
+        for e in a["effects"]:
+            if _prop_holds(e["cond"], st):
+                nxt[e["fluent"][1]] = bool(e["value"][1])
+        st = nxt
+    return st
+
+
+def _directed_chain(rng, tries=8):
+    """-> (recipe, features, name of the uncertain early-chain atom).  Candidates are re-drawn (up to `tries` times) until the
+    uncertainty matters: executing the actions in listing order from two states that differ only in the early atom ends
+    with different values of the atom at the end of the chain."""
+    out = None
+    for _ in range(tries):
+        rec, feats = _chain_candidate(rng)
+        d = len([f for f in rec["fluents"] if f["name"].startswith("p")]) - 1
+        early = f"p{rng.choice([0, 0, 1]) if d > 2 else rng.choice([0, 0, 0, 1])}"
+        s0 = {f["name"]: False for f in rec["fluents"]}
+        for fe, v in rec["init"]:
+            s0[fe[1]] = bool(v[1])
+        s1 = dict(s0)
+        s1[early] = not s0[early]
+        out = (rec, feats, early)
+        if _prop_run(rec, s0)[f"p{d}"] != _prop_run(rec, s1)[f"p{d}"]:
+            return rec, feats + ["chain-uncertainty-reaches-goal-atom"], early
+    return out
+
+
+def _chain_candidate(rng):
+    """Chains of conditional effects over propositional atoms p0 -> p1 -> ... -> pd (depth 2-3): link i is one conditional
+    effect "if [not] p_i then p_{i+1} := v" with free polarities (so a dependency may be stated directly or through its
+    complement), links spread over 1..d actions in chain order or not, an optional unconditional flag on the action holding
+    the last link; goals over the end of the chain (and the flag).  The uncertainty (built in gen_conformant) is about ONE
+    early-chain atom, in either listing order."""
+    d = rng.choice([2, 2, 3])
+    atoms = [f"p{i}" for i in range(d + 1)]
+    fl = [{"name": a, "type": "bool", "sig": [], "default": ["b", False]} for a in atoms]
+    fl.append({"name": "g", "type": "bool", "sig": [], "default": ["b", False]})
+    lit = lambda a, pos: ["f", a] if pos else ["not", ["f", a]]
+    links = []
+    for i in range(d):
+        links.append({"kind": "assign", "fluent": ["f", atoms[i + 1]], "value": ["b", rng.random() < 0.5], "cond": lit(atoms[i], rng.random() < 0.5), "forall": []})
+    # distribute the links over actions (each action has at most one effect per atom by construction: distinct targets)
+    nact = rng.randint(1, d)
+    groups = [[] for _ in range(nact)]
+    for i, e in enumerate(links):
+        groups[min(i * nact // d, nact - 1) if rng.random() < 0.8 else rng.randrange(nact)].append((i, e))
+    acts = []
+    flag = rng.random() < 0.65
+    for j, grp in enumerate(groups):
+        if not grp:
+            continue
+        effs = [e for _, e in grp]
+        if flag and any(i == d - 1 for i, _ in grp):
+            effs.append({"kind": "assign", "fluent": ["f", "g"], "value": ["b", True], "cond": None, "forall": []})
+        pre = []
+        if rng.random() < 0.15:
+            pre = [lit("g", False)]
+        acts.append({"name": f"step{j}", "params": [], "pre": pre, "effects": effs})
+    if rng.random() < 0.3:
+        # a second way to touch a middle atom, so that plans differ in what they need to know
+        k = rng.randrange(1, d + 1)
+        acts.append({"name": "fix", "params": [], "pre": [], "effects": [{"kind": "assign", "fluent": ["f", atoms[k]], "value": ["b", rng.random() < 0.5], "cond": lit(atoms[rng.randrange(0, k)], rng.random() < 0.5) if rng.random() < 0.6 else None, "forall": []}]})
+    goals = [lit(atoms[d], rng.random() < 0.5)]
+    if flag:
+        goals.append(["f", "g"])
+    if rng.random() < 0.2:
+        goals.append(lit(atoms[rng.randrange(1, d)], rng.random() < 0.5))
+    init = [[["f", a], ["b", rng.random() < 0.5]] for a in atoms]
+    rec = {"name": "chain", "types": [["T0", None]], "objects": [["o0", ["user", "T0"]]], "fluents": fl, "actions": acts, "init": init, "goals": goals, "invariants": []}
+    return rec, ["directed-chain", "conditional-effect", "negation", f"chain-depth:{d}"]
+
+
+def _signed_group(rng, atoms, neg):
+    """Literals [[key, positive]] over the given atoms; each is negative with probability `neg`."""
+    return [[list(k), rng.random() >= neg] for k in atoms]
+
+
+def gen_conformant(rng, directed=0.2, contingent=0.38, chain=0.25):
     """-> (recipe, features, uncertainty) with uncertainty =
     {"mode": "explicit", "states": [{"f(a,b)": bool, ...}, ...]} (keys are kstr(k) for k in ground_fluent_keys) or
     {"mode": "contingent", "oneof": [[[key, positive], ...]], "or": [...], "unknown": [key, ...]}"""
-    if rng.random() < directed:
+    u = rng.random()
+    if u < directed:
         rec, feats = _directed(rng)
+    elif u < directed + chain:
+        rec, feats, early_name = _directed_chain(rng)
     else:
         rec, feats = gen_problem(rng, PROFILE)
         feats = list(feats)
@@ -190,6 +292,43 @@ def gen_conformant(rng, directed=0.25, contingent=0.38):
             s[("ok", ())] = True
             states.append(s)
         return rec, feats, {"mode": "explicit", "states": [{kstr(k): v for k, v in s.items()} for s in states]}
+    if "directed-chain" in feats:
+        chain_atoms = [k for k in keys if k[0].startswith("p")]
+        early = next(k for k in chain_atoms if k[0] == early_name)
+        if rng.random() < contingent:
+            unc = {"mode": "contingent", "oneof": [], "or": [], "unknown": []}
+            x = rng.random()
+            fs = ["contingent"]
+            others = [k for k in chain_atoms if k != early]
+            grp = [early] + rng.sample(others, rng.randint(1, min(2, len(others))))
+            rng.shuffle(grp)
+            if x < 0.3:
+                unc["unknown"].append(list(early))
+                fs.append("unknown")
+            elif x < 0.75:
+                unc["oneof"].append(_signed_group(rng, grp, 0.45))
+                fs.append("oneof")
+            else:
+                unc["or"].append(_signed_group(rng, grp, 0.45))
+                fs.append("or")
+            for grp_name in ("oneof", "or"):
+                if any(not pos for g in unc[grp_name] for _, pos in g):
+                    fs.append(grp_name + "-negative-literal")
+            return rec, feats + fs, unc
+        # explicit: states that differ in exactly one early-chain atom, in either listing order (+ sometimes a third one)
+        s0 = dict(base)
+        s1 = dict(base)
+        s1[early] = not s0[early]
+        states = [s0, s1]
+        if rng.random() < 0.5:
+            states.reverse()
+        if rng.random() < 0.3:
+            s2 = dict(rng.choice(states))
+            k = rng.choice(keys)
+            s2[k] = not s2[k]
+            states.insert(rng.randint(0, 2), s2)
+        fs = ["states-differ-in-one-early-chain-atom", "first-state-has-early-atom-" + ("true" if states[0][early] else "false")]
+        return rec, feats + fs, {"mode": "explicit", "states": [{kstr(k): v for k, v in s.items()} for s in states]}
     if rng.random() < contingent and len(keys) >= 2:
         unc = {"mode": "contingent", "oneof": [], "or": [], "unknown": []}
         pool = list(keys)
@@ -199,23 +338,26 @@ def gen_conformant(rng, directed=0.25, contingent=0.38):
         fs = ["contingent"]
         if x < 0.35 and len(pool) >= 2:
             g = pool[: rng.randint(2, len(pool))]
-            unc["oneof"].append([[list(k), rng.random() < 0.85] for k in g])
+            unc["oneof"].append(_signed_group(rng, g, rng.choice([0.0, 0.3, 0.5])))
             fs.append("oneof")
             for k in pool[len(g) :]:
                 unc["unknown"].append(list(k))
                 fs.append("unknown")
         elif x < 0.75 and len(pool) >= 2:
             g = pool[: rng.randint(2, len(pool))]
-            unc["or"].append([[list(k), rng.random() < 0.8] for k in g])
+            unc["or"].append(_signed_group(rng, g, rng.choice([0.0, 0.3, 0.5])))
             fs.append("or")
             if rng.random() < 0.4 and len(g) >= 2:
-                unc["oneof"].append([[list(k), True] for k in g[:2]])
+                unc["oneof"].append(_signed_group(rng, g[:2], rng.choice([0.0, 0.0, 0.4])))
                 fs.append("oneof")
                 fs.append("oneof+or-shared-atoms")
         else:
             for k in pool[:3]:
                 unc["unknown"].append(list(k))
             fs.append("unknown")
+        for grp_name in ("oneof", "or"):
+            if any(not pos for g in unc[grp_name] for _, pos in g):
+                fs.append(grp_name + "-negative-literal")
         return rec, feats + fs, unc
     n = rng.choice([1, 2, 2, 3, 3, 4])
     states = []
